@@ -62,9 +62,9 @@
         A partial SQLite checkpoint may copy an older version than the log's
         last (W2BackfillOld); a finalisation of the journal may fail inside
         LiteFS before anything is published (AFail) and be repeated.
-   NOT proved (C04_history_partial): histories outside these steps - writes
-   forwarded by a replica that holds the halt lock, a WAL commit LiteFS fails
-   inside, a node whose page size changes; these are re-checked on
+   NOT proved (C04_history_partial): histories outside these steps - a WAL
+   commit LiteFS fails inside (the process exits: C05 has the crash points), a
+   node whose page size changes; these are re-checked on
    every run by the correspondence (the model re-executes every generated
    history and must reproduce every reported position) and by the harness'
    raw-file recomputation. *)
@@ -336,6 +336,8 @@ Proof. exact wal_full_history_example. Qed.
      GRecv f              the node, a replica for the moment, is sent a transaction file: refused when it does not continue
                           the position, else placed and applied ([wf_recv]: the file is well-formed and has the pages it adds
                           beyond the database size; in WAL mode the log has been checkpointed);
+     GForward f ok        a replica that holds the halt lock forwards a transaction (handlePostTx): it has to continue the
+                          position and its body has to verify ([ok]); then as GRecv;
      GDrop                the database is dropped;
      GImport pages commit a database image with every page 1..commit replaces whatever is there ([wf_import]).
    [v'] is the logical database [run_gsteps] computes: in WAL mode the overlay of frames on the file at the switch or at
@@ -356,8 +358,8 @@ Print Assumptions C04_history.
 
 (* Non-vacuity: create the database; restart; switch to WAL mode; a WAL transaction that grows the database; restart with the
    log in place; another transaction; SQLite's complete checkpoint with the restart of the log; back to rollback-journal
-   mode; a rollback-journal transaction; a file from the stream applied, a stray one refused; a transaction of its own;
-   a drop; an import *)
+   mode; a rollback-journal transaction; a file from the stream applied, a stray one refused; a forwarded transaction refused,
+   one applied; a drop; an import *)
 Example C04_history_nonvacuous :
   let pg h n := mkPg (fl h) n false in
   let pw h n := mkPg (fl h) n true in
@@ -373,7 +375,8 @@ Example C04_history_nonvacuous :
              GJ (HTx [] [AWrite 3 (pg 36 0)] 3);
              GRecv (mkLtx 7 7 (x3 15 24 36) (x3 15 27 36) 3 [(2, pg 27 0)]);
              GRecv (mkLtx 9 9 0 0 1 []);
-             GJ (HTx [] [AWrite 1 (pg 18 3)] 3);
+             GForward (mkLtx 8 8 0 0 1 []) true;
+             GForward (mkLtx 8 8 (x3 15 27 36) (x3 18 27 36) 3 [(1, pg 18 3)]) true;
              GDrop;
              GImport [(1, pg 41 2); (2, pg 42 0)] 2] in
   wf_gsteps (init 2097153) gs /\
